@@ -63,6 +63,8 @@ mod statistics;
 mod storage;
 mod transaction_manager;
 mod version_manager;
+#[cfg(feature = "verif")]
+pub mod verif_lab;
 
 const MANIFEST_FILE_NAME: &str = "manifest.json";
 
